@@ -129,7 +129,13 @@ func fixedAddr(b0, b1, last byte) common.Address {
 	return common.BytesToAddress(a[:], loc)
 }
 
-func newWorld(pre *Pre) *World {
+// newWorld builds the state a block starts from.  Coinbase-lockup records of the pre-state are COMMITTED in the
+// database (written by earlier blocks), the block batch is empty with the pending view switched on: what
+// StateProcessor.Process and the worker hand to the EVM.  lockInBatch stages them in the block batch instead (records
+// created earlier in the same block).
+func newWorld(pre *Pre) *World { return newWorldOpt(pre, false) }
+
+func newWorldOpt(pre *Pre, lockInBatch bool) *World {
 	lg := log.Global
 	w := &World{addr: map[string]common.Address{}, keys: map[string]*ecdsa.PrivateKey{}, ext: map[string]common.Address{}, logger: lg}
 	cc := *params.Blake3PowLocalChainConfig
@@ -195,12 +201,16 @@ func newWorld(pre *Pre) *World {
 		if v := pre.Wq[n]; v != 0 {
 			w.statedb.SetState(li, common.BytesToHash(ia[:]), common.BigToHash(big.NewInt(v)))
 		}
+		var lockDst ethdb.KeyValueWriter = w.diskdb
+		if lockInBatch {
+			lockDst = w.batch
+		}
 		switch pre.Lk[n] {
 		case "unlocked":
-			_, err := rawdb.WriteCoinbaseLockup(w.batch, w.addr[n], w.miner, lockupByte, lockupEpoch, big.NewInt(pre.LockVal), 1, 1, common.Zero)
+			_, err := rawdb.WriteCoinbaseLockup(lockDst, w.addr[n], w.miner, lockupByte, lockupEpoch, big.NewInt(pre.LockVal), 1, 1, common.Zero)
 			must(err)
 		case "locked":
-			_, err := rawdb.WriteCoinbaseLockup(w.batch, w.addr[n], w.miner, lockupByte, lockupEpoch, big.NewInt(pre.LockVal), blockNumber+1000, 1, common.Zero)
+			_, err := rawdb.WriteCoinbaseLockup(lockDst, w.addr[n], w.miner, lockupByte, lockupEpoch, big.NewInt(pre.LockVal), blockNumber+1000, 1, common.Zero)
 			must(err)
 		}
 	}
@@ -271,7 +281,7 @@ func (w *World) observe(env *vm.EVM, pf int64) Obs {
 		ia := w.internal(n)
 		o.Bal[n] = toI64(w.statedb.GetBalance(ia))
 		o.Wq[n] = toI64(w.statedb.GetState(li, common.BytesToHash(ia[:])).Big())
-		_, tranche, _, _ := rawdb.ReadCoinbaseLockup(w.diskdb, w.batch, w.addr[n], w.miner, lockupByte, lockupEpoch)
+		tranche := w.lockupHeight(n)
 		switch {
 		case tranche == 0:
 			o.Lk[n] = "none"
@@ -287,6 +297,25 @@ func (w *World) observe(env *vm.EVM, pf int64) Obs {
 		o.Netx = pf
 	}
 	return o
+}
+
+// lockupHeight reads the unlock height of n's lockup record as the block sees it: the pending view of the block batch
+// (a delete there hides the committed record) over the database.  Literal transcription of the record layout
+// (32 bytes amount | 4 bytes unlock height | 2 bytes elements [| 20 bytes delegate]); 0 = no record.
+// (rawdb.ReadCoinbaseLockup, the function ClaimCoinbaseLockup relies on, is deliberately not used.)
+func (w *World) lockupHeight(n string) uint32 {
+	key := rawdb.CoinbaseLockupKey(w.addr[n], w.miner, lockupByte, lockupEpoch)
+	deleted, data := w.batch.GetPending(key)
+	if deleted {
+		return 0
+	}
+	if data == nil {
+		data, _ = w.diskdb.Get(key)
+	}
+	if len(data) < 38 {
+		return 0
+	}
+	return binary.BigEndian.Uint32(data[32:36])
 }
 
 // total of every balance in the state trie (catches value sitting on an account outside the universe)
